@@ -4,8 +4,9 @@
      visits inc p     the include list inc is crossed in order by p
      Route g s t inc p  :=  is_walk g p /\ NoDup p /\ hd_error p = Some s /\ last p t = t /\ visits inc p
      optimal g s t inc p  :=  Route g s t inc p /\ forall q, Route g s t inc q -> weight g p <= weight g q
-   Not proved: that an explicit answer is also the shortest route crossing the list (it is the only one, which
-   needs the chain structure of an OMS); the oracle checks its weight against the optimum on every run.
+   An explicit answer is the only route of its request, hence optimal, under the chain / coverage hypotheses of
+   c11_covered_route_unique (also available as the executable certificate explicit_forced, evaluated on every
+   explicit answer of a run).  Not proved: that those hypotheses hold of every network gnpy can build.
    Weights are integers (centimetres; gnpy's 0.01 non-fibre hop = 1). *)
 From Verif Require Import Prelude Model.Route Proofs.Route.
 Open Scope Z_scope.
@@ -72,6 +73,40 @@ Theorem c11_model_ccp_spec :
     end.
 Proof. exact model_ccp_spec. Qed.
 Print Assumptions c11_model_ccp_spec.
+
+(* OPTIMALITY OF AN EXPLICIT ANSWER.  No hypothesis about parallel lines is needed; what is needed is the chain
+   structure along p (chain_hyp: every line element of p has exactly one successor and one predecessor, the source
+   transceiver one successor, the destination one predecessor, two successive ROADMs of p are separated by a line
+   element) and that the list names an element of every line section (OMS) of p (covered: every line element of p sits
+   in a run of successive line elements of p containing a listed element).  Then p is the ONLY route of the request. *)
+Theorem c11_covered_route_unique :
+  forall n s t inc p,
+  Route (ngraph n) s t inc p -> chain_hyp n s t p -> covered n inc p ->
+  forall q, Route (ngraph n) s t inc q -> q = p.
+Proof. exact covered_route_unique. Qed.
+Print Assumptions c11_covered_route_unique.
+
+Theorem c11_explicit_path_optimal :
+  forall n inc s t p,
+  explicit_path n inc s t = Some p -> chain_hyp n s t p -> covered n inc p ->
+  optimal (ngraph n) s t inc p.
+Proof. exact explicit_path_optimal. Qed.
+Print Assumptions c11_explicit_path_optimal.
+
+(* the same as an executable certificate, evaluated on every explicit answer of a run: membership in any route of the
+   request is propagated from the anchors (s, t, the listed elements) along only-successor / only-predecessor edges *)
+Theorem c11_explicit_forced_unique :
+  forall n inc s t p,
+  explicit_forced n inc s t p = true -> hd_error p = Some s -> last p t = t ->
+  forall q, Route (ngraph n) s t inc q -> q = p.
+Proof. exact explicit_forced_unique. Qed.
+Print Assumptions c11_explicit_forced_unique.
+
+Theorem c11_explicit_forced_optimal :
+  forall n inc s t p,
+  explicit_path n inc s t = Some p -> explicit_forced n inc s t p = true -> optimal (ngraph n) s t inc p.
+Proof. exact explicit_forced_optimal. Qed.
+Print Assumptions c11_explicit_forced_optimal.
 
 (* every path it returns is a route: for the include list, or (LOOSE fall-back) without it *)
 Theorem c11_model_ccp_path_is_route :
@@ -156,3 +191,23 @@ Example c11_ex_ccp_explicit :
 Proof. vm_compute. repeat split. Qed.
 Example c11_ex_seg_cert : seg_cert_ok ex_g [[0; 0; 2; 1; 2]; [0; 9; 0; 9; 5]] 1 4 [2] [1; 3; 2; 4] = true.
 Proof. vm_compute. reflexivity. Qed.
+Example c11_ex_forced : explicit_forced f11_net [8] 0 4 [0; 1; 8; 5; 4] = true /\
+                        explicit_forced f11_net [] 0 4 [0; 1; 8; 5; 4] = false.
+Proof. vm_compute. split; reflexivity. Qed.
+Example c11_ex_chain_hyp : chain_hyp f11_net 0 4 [0; 1; 8; 5; 4].
+Proof.
+  unfold chain_hyp. split; [|split; [exists 1; reflexivity|split; [exists 5; reflexivity|split; [reflexivity|split; [reflexivity|]]]]].
+  - intros x Hx Hl. destruct Hx as [<-|[<-|[<-|[<-|[<-|[]]]]]]; try (vm_compute in Hl; discriminate).
+    split; [exists 5|exists 1]; reflexivity.
+  - intros l1 u v l2 E. destruct l1 as [|a [|b [|c [|d l1]]]]; cbn in E; injection E; intros; subst.
+    + right; right; left; reflexivity.
+    + right; left; reflexivity.
+    + left; reflexivity.
+    + right; right; right; reflexivity.
+    + destruct l1 as [|? [|? ?]]; cbn in *; congruence.
+Qed.
+Example c11_ex_covered : covered f11_net [8] [0; 1; 8; 5; 4].
+Proof.
+  intros x Hx Hl. destruct Hx as [<-|[<-|[<-|[<-|[<-|[]]]]]]; try (vm_compute in Hl; discriminate).
+  exists [0; 1], [8], [5; 4], 8. repeat split; try (left; reflexivity). repeat constructor.
+Qed.
